@@ -109,7 +109,7 @@ theorem sfn_facts {name : List Nat} {sfn : Bytes} (h : Sfn.createFromStr name = 
           have hinit : SfnInv { contents := List.replicate Sfn.TOTAL_LEN (UInt8.ofNat 32), idx := 0, seenDot := false } :=
             ⟨by decide, fun h => absurd rfl h⟩
           obtain ⟨h1, h2⟩ := sfn_loop_inv name hst hinit
-          exact ⟨h1, h2 hidx⟩
+          exact ⟨by rw [C18.kanjiStore_length]; exact h1, C18.byteAt_kanjiStore_ne_zero _ (h2 hidx)⟩
 
 theorem sfn_length {name : List Nat} {sfn : Bytes} (h : Sfn.createFromStr name = .ok sfn) : sfn.length = 11 :=
   (sfn_facts h).1
